@@ -25,6 +25,8 @@ type SV struct {
 	// Interior: the value is a (never nil) pointer into a node of an owned structure; all a
 	// specification can do with it is compare it with nil and read what it points to (this term)
 	Interior *smt.Term
+	// exactly modelled local map: presence array (K -> Bool) and value array (K -> V)
+	MapP, MapV *smt.Term
 }
 
 type scope struct {
@@ -81,6 +83,7 @@ type Eval struct {
 	// Owned folds a handle of an owned structure into its tree value.
 	Owned func(*ownedRef) *smt.Term
 	OwnedField func(*ownedFieldLoc) *smt.Term
+	LocalMap func(*localMap) (present, vals *smt.Term)
 	unfold int // current unfolding depth of recursive specification functions
 	ufSeen map[*smt.Term]int
 }
@@ -115,6 +118,9 @@ func (e *Eval) ResolveType(te *spec.TypeExpr) types.Type {
 		return types.NewArray(e.ResolveType(te.Elem), n)
 	case "map":
 		return types.NewMap(e.ResolveType(te.Key), e.ResolveType(te.Elem))
+	}
+	if te.Pkg == "unsafe" && te.Name == "Pointer" {
+		return types.Typ[types.UnsafePointer] // the type of ref(x): the identity of an object or backing array
 	}
 	if te.Pkg != "" {
 		p := e.P.findImport(e.Pkg, te.Pkg)
@@ -255,6 +261,12 @@ func (e *Eval) FromVal(v Val, t types.Type) SV {
 			e.fail("owned pointer used where no execution state is available")
 		}
 		return SV{T: t, Term: e.Owned(x)}
+	case *localMap:
+		if e.LocalMap == nil {
+			e.fail("local map used where no execution state is available")
+		}
+		p, vs := e.LocalMap(x)
+		return SV{T: t, MapP: p, MapV: vs}
 	case *ownedFieldLoc:
 		if e.OwnedField == nil {
 			e.fail("pointer into an owned node used where no execution state is available")
@@ -1014,6 +1026,14 @@ func (e *Eval) call(x *spec.Call) SV {
 	case "sameslice":
 		a, b := e.Eval(x.Args[0]), e.Eval(x.Args[1])
 		return boolSV(smt.Eq(a.Term, b.Term))
+	case "present": // present(m, k): the local map m has an entry for key k
+		m, k := e.Eval(x.Args[0]), e.Eval(x.Args[1])
+		if m.MapP == nil {
+			e.fail("present() needs an exactly modelled local map (made by this function, never passed on)")
+		}
+		mt := m.T.Underlying().(*types.Map)
+		k = e.coerce(k, mt.Key())
+		return boolSV(smt.Select(m.MapP, e.term(k)))
 	case "samestr": // the same substring of the same underlying text (not just equal content)
 		a, b := e.Eval(x.Args[0]), e.Eval(x.Args[1])
 		if a.T == nil || b.T == nil || !isString(a.T) || !isString(b.T) {
@@ -1165,7 +1185,7 @@ func (e *Eval) applySpecFunc(sf *specFn, args []spec.Expr) SV {
 	}
 	defEval.Scope = sc
 	defEval.unfold, defEval.ufSeen, defEval.Owned = e.unfold, e.ufSeen, e.Owned
-	if sf.F.Uninterpreted || sf.isRecursive() {
+	if sf.F.Uninterpreted || sf.F.Opaque || sf.isRecursive() {
 		return e.applyUF(sf, defEval, sc)
 	}
 	r := defEval.Eval(sf.F.Body)
